@@ -332,6 +332,10 @@ func encodeBoth(x any, st setting) (p, s outcome) {
 		e.SetEscapeHTML(st.html)
 		e.SetIndent(st.prefix, st.indent)
 		p.err = e.Encode(x)
+		if p.err == nil { // the same Encoder again: state kept between calls must not show
+			p.err = e.Encode(x)
+			e.Encode([]int{1})
+		}
 		p.b = buf.Bytes()
 	})
 	s.sig, s.stk = core.Guard(func() {
@@ -340,6 +344,10 @@ func encodeBoth(x any, st setting) (p, s outcome) {
 		e.SetEscapeHTML(st.html)
 		e.SetIndent(st.prefix, st.indent)
 		s.err = e.Encode(x)
+		if s.err == nil {
+			s.err = e.Encode(x)
+			e.Encode([]int{1})
+		}
 		s.b = buf.Bytes()
 	})
 	if p.err != nil {
